@@ -39,6 +39,8 @@ func (r *Rng) pick(xs ...string) string { return xs[r.intn(len(xs))] }
 
 func (r *Rng) pickI(xs ...int) int { return xs[r.intn(len(xs))] }
 
+func (r *Rng) pickI64(xs ...int64) int64 { return xs[r.intn(len(xs))] }
+
 func (r *Rng) fork() *Rng { return newRng(r.u64()) }
 
 func (r *Rng) perm(n int) []int {
